@@ -24,6 +24,10 @@ from fractions import Fraction
 from typing import Any, Callable, Dict, List, Optional
 
 ROOT = os.path.dirname(os.path.dirname(os.path.abspath(__file__)))
+# Where evidence/ and out/ are written.  Registered commands never set VERIF_OUT_DIR (so they
+# write /verif/evidence); mutant / seeded-change runs against scratch worktrees set it so that
+# they cannot overwrite the evidence of the unchanged tree.
+OUT_ROOT = os.environ.get("VERIF_OUT_DIR") or ROOT
 
 
 class Violation(Exception):
@@ -367,8 +371,8 @@ def write_evidence(mod, prop, tier, seed, merged, wall, violations, known_lines)
         "wall_s": round(wall, 2),
         "violations": violations,
     }
-    os.makedirs(os.path.join(ROOT, "evidence"), exist_ok=True)
-    with open(os.path.join(ROOT, "evidence", f"{prop}.json"), "w") as f:
+    os.makedirs(os.path.join(OUT_ROOT, "evidence"), exist_ok=True)
+    with open(os.path.join(OUT_ROOT, "evidence", f"{prop}.json"), "w") as f:
         f.write(json.dumps(ev, indent=1, default=jdefault))
 
 
@@ -422,7 +426,7 @@ def replay_regressions(mod, prop, tier, seed):
 
 
 def save_replay(prop, seed, failure) -> str:
-    d = os.path.join(ROOT, "out", "replays", prop)
+    d = os.path.join(OUT_ROOT, "out", "replays", prop)
     os.makedirs(d, exist_ok=True)
     name = f"{failure['sig'].replace('/', '_').replace(' ', '_')[:60]}-{case_hash(failure['case'])}.json"
     path = os.path.join(d, name)
@@ -440,7 +444,7 @@ def save_replay(prop, seed, failure) -> str:
             indent=1,
             default=jdefault,
         )
-    return os.path.relpath(path, ROOT)
+    return os.path.relpath(path, ROOT) if OUT_ROOT == ROOT else path
 
 
 def main_run(prop: str, tier: str, seed: int, replay_path: Optional[str] = None, nshards_override: Optional[int] = None) -> int:
